@@ -76,9 +76,25 @@ def _dominated_nonempty(f: FuncInfo, sub: ast.Subscript) -> bool:
     return bool(edges) and cfg.edge_dominated(nd.id, edges)
 
 
+def _is_str_typed(f: FuncInfo, name: str) -> bool:
+    """`name` is a parameter annotated `str`, or the target of a `for` over such a parameter: its characters are str, for which isdigit() also accepts
+    superscripts and other non-decimal digits that int() refuses."""
+    def ann_str(a):
+        return a is not None and src(a) in ("str", "'str'")
+    args = f.node.args
+    strs = {a.arg for a in list(args.posonlyargs) + list(args.args) + list(args.kwonlyargs) if ann_str(a.annotation)}
+    if name in strs:
+        return True
+    for n in ast.walk(f.node):
+        if isinstance(n, ast.For) and isinstance(n.target, ast.Name) and n.target.id == name and isinstance(n.iter, ast.Name) and n.iter.id in strs:
+            return True
+    return False
+
+
 def _isdigit_guard(f: FuncInfo, call: ast.Call) -> bool:
     arg = src(call.args[0])
     cfg = _cfg(f)
+    accepted = (f"{arg}.isdecimal()",) if _is_str_typed(f, arg) else (f"{arg}.isdigit()", f"{arg}.isdecimal()")
     nd = _node_of(cfg, call)
     if nd is None:
         return False
@@ -88,7 +104,7 @@ def _isdigit_guard(f: FuncInfo, call: ast.Call) -> bool:
             continue
         norm = normalise_compare(t.ast.test)
         for (lhs, op, rhs) in atoms(norm):
-            if lhs in (f"{arg}.isdigit()", f"{arg}.isdecimal()"):
+            if lhs in accepted:
                 if op == "truthy" and norm[0] in ("atom", "and"):
                     edges.add((t.id, "t"))
                 if op == "falsy" and norm[0] in ("atom", "or"):
